@@ -21,6 +21,68 @@ import (
 
 const simsyncPath = "github.com/istio-ecosystem/authservice/internal/simsync"
 
+// deterministicSelect rewrites a blocking select whose cases are all receives into
+//
+//	{ done := false
+//	  select { case <first>:  done = true; body  default: }
+//	  if !done { select { case <second>: done = true; body  default: } } ...
+//	  if !done { <the original select> } }
+//
+// When several cases are ready on arrival the Go runtime picks one at random, which no seed controls; taking the
+// first ready case in source order is one of the choices the language allows. When none is ready the original
+// select blocks as before. break and continue inside the bodies keep their meaning (break leaves a select,
+// continue is not captured by any new loop).
+func deterministicSelect(st *ast.SelectStmt, line int) ast.Stmt {
+	var clauses []*ast.CommClause
+	for _, c := range st.Body.List {
+		cc := c.(*ast.CommClause)
+		if cc.Comm == nil {
+			return nil // has a default: never blocks, nothing to decide
+		}
+		switch comm := cc.Comm.(type) {
+		case *ast.ExprStmt:
+			u, ok := comm.X.(*ast.UnaryExpr)
+			if !ok || u.Op != token.ARROW {
+				return nil
+			}
+		case *ast.AssignStmt:
+			if len(comm.Rhs) != 1 {
+				return nil
+			}
+			u, ok := comm.Rhs[0].(*ast.UnaryExpr)
+			if !ok || u.Op != token.ARROW {
+				return nil
+			}
+		default:
+			return nil // a send
+		}
+		clauses = append(clauses, cc)
+	}
+	if len(clauses) < 2 {
+		return nil
+	}
+	done := ast.NewIdent("simsel" + strconv.Itoa(line))
+	setDone := func() ast.Stmt {
+		return &ast.AssignStmt{Lhs: []ast.Expr{ast.NewIdent(done.Name)}, Tok: token.ASSIGN, Rhs: []ast.Expr{ast.NewIdent("true")}}
+	}
+	notDone := func() ast.Expr { return &ast.UnaryExpr{Op: token.NOT, X: ast.NewIdent(done.Name)} }
+	block := &ast.BlockStmt{}
+	block.List = append(block.List, &ast.AssignStmt{Lhs: []ast.Expr{ast.NewIdent(done.Name)}, Tok: token.DEFINE, Rhs: []ast.Expr{ast.NewIdent("false")}})
+	for i, cc := range clauses {
+		poll := &ast.SelectStmt{Body: &ast.BlockStmt{List: []ast.Stmt{
+			&ast.CommClause{Comm: cc.Comm, Body: append([]ast.Stmt{setDone()}, cc.Body...)},
+			&ast.CommClause{},
+		}}}
+		if i == 0 {
+			block.List = append(block.List, poll)
+		} else {
+			block.List = append(block.List, &ast.IfStmt{Cond: notDone(), Body: &ast.BlockStmt{List: []ast.Stmt{poll}}})
+		}
+	}
+	block.List = append(block.List, &ast.IfStmt{Cond: notDone(), Body: &ast.BlockStmt{List: []ast.Stmt{st}}})
+	return block
+}
+
 func main() {
 	if len(os.Args) != 3 {
 		fmt.Fprintln(os.Stderr, "usage: instrument <in.go> <out.go>")
@@ -89,7 +151,18 @@ func main() {
 				cc := c.(*ast.CommClause)
 				cc.Body = rewriteList(cc.Body)
 			}
+			if det := deterministicSelect(st, fset.Position(st.Pos()).Line); det != nil {
+				return det
+			}
 		case *ast.LabeledStmt:
+			if sel, ok := st.Stmt.(*ast.SelectStmt); ok {
+				// a labelled select keeps its shape (break <label> must keep referring to a select)
+				for _, c := range sel.Body.List {
+					cc := c.(*ast.CommClause)
+					cc.Body = rewriteList(cc.Body)
+				}
+				return s
+			}
 			st.Stmt = rewriteStmt(st.Stmt)
 		case *ast.GoStmt:
 			// go f(x)  =>  simsync.Go(func() { f(x) })   (arguments are evaluated in the new goroutine; for the
